@@ -7,20 +7,21 @@ func init() {
 	P := []string{"ctx", "clientID", "deviceCode", "exchanger"}
 	obs := []Ob{
 		// the state predicate with duals, in control-flow order denied -> done -> expired -> pending
-		{ID: "E1.device.state.accept", Fn: "op.CheckDeviceAuthorizationState", P: P, Kind: "ret ok", Max: 1,
+		{ID: "E1.device.state.accept", Fn: "op.CheckDeviceAuthorizationState", P: P, Kind: "ret ok",
 			Why: "tokens only for a device code of this client that the user approved and did not deny",
 			Req: []string{"def($r0, " + get + ", 0)", "ok(" + get + ")", "false($r0.Denied)", "true($r0.Done)"}},
-		{ID: "E1.device.state.slow-down", Fn: "op.CheckDeviceAuthorizationState", P: P, Kind: "ret fail", Pat: "ret(nil, oidc.ErrSlowDown().WithParent(_))", Max: 1,
+		{ID: "E1.device.state.slow-down", Fn: "op.CheckDeviceAuthorizationState", P: P, Kind: "ret fail", When: []string{"errOrig($r1, oidc.ErrSlowDown)"},
 			Req: []string{"errIs(" + get + ", context.DeadlineExceeded)"}},
-		{ID: "E1.device.state.storage-error", Fn: "op.CheckDeviceAuthorizationState", P: P, Kind: "ret fail", Pat: "ret(nil, oidc.ErrAccessDenied().WithParent(_))", Max: 1,
-			Req: []string{"fail(" + get + ")", "notErrIs(" + get + ", context.DeadlineExceeded)"}},
-		{ID: "E1.device.state.denied", Fn: "op.CheckDeviceAuthorizationState", P: P, Kind: "ret fail", Pat: "ret($state, oidc.ErrAccessDenied())", Max: 1,
-			Req: []string{"ok(" + get + ")", "true($state.Denied)"}},
-		{ID: "E1.device.state.expired", Fn: "op.CheckDeviceAuthorizationState", P: P, Kind: "ret fail", Pat: "ret($state, oidc.ErrExpiredDeviceCode())", Max: 1,
-			Req: []string{"ok(" + get + ")", "false($state.Denied)", "false($state.Done)", "true($state.Expires.Before(time.Now()))"}},
-		{ID: "E1.device.state.pending", Fn: "op.CheckDeviceAuthorizationState", P: P, Kind: "ret fail", Pat: "ret($state, oidc.ErrAuthorizationPending())", Max: 1,
-			Req: []string{"ok(" + get + ")", "false($state.Denied)", "false($state.Done)", "false($state.Expires.Before(time.Now()))"}},
-		{ID: "E1.device.state.only", Fn: "op.CheckDeviceAuthorizationState", Kind: "ret any", Max: 7},
+		{ID: "E1.device.state.denied", Fn: "op.CheckDeviceAuthorizationState", P: P, Kind: "ret fail", When: []string{"errOrig($r1, oidc.ErrAccessDenied)"},
+			Why: "access_denied: the storage failed (other than by deadline), or the user denied",
+			Req: []string{"(fail(" + get + ") && notErrIs(" + get + ", context.DeadlineExceeded)) || (ok(" + get + ") && def($s, " + get + ", 0) && true($s.Denied))"}},
+		{ID: "E1.device.state.expired", Fn: "op.CheckDeviceAuthorizationState", P: P, Kind: "ret fail", When: []string{"errOrig($r1, oidc.ErrExpiredDeviceCode)"},
+			Req: []string{"ok(" + get + ")", "def($s, " + get + ", 0)", "false($s.Denied)", "false($s.Done)", "true($s.Expires.Before(time.Now()))"}},
+		{ID: "E1.device.state.pending", Fn: "op.CheckDeviceAuthorizationState", P: P, Kind: "ret fail", When: []string{"errOrig($r1, oidc.ErrAuthorizationPending)"},
+			Req: []string{"ok(" + get + ")", "def($s, " + get + ", 0)", "false($s.Denied)", "false($s.Done)", "false($s.Expires.Before(time.Now()))"}},
+		{ID: "E1.device.state.only", Fn: "op.CheckDeviceAuthorizationState", P: P, Kind: "ret fail",
+			Why: "no other error leaves the state predicate",
+			Req: []string{"errOrig($r1, oidc.ErrSlowDown) || errOrig($r1, oidc.ErrAccessDenied) || errOrig($r1, oidc.ErrExpiredDeviceCode) || errOrig($r1, oidc.ErrAuthorizationPending) || fail(op.assertDeviceStorage(__))"}},
 		// token sinks, both routers
 		{ID: "E1.device.token.provider", Fn: "op.deviceAccessToken", Kind: "call", Pat: "op.CreateDeviceTokenResponse(_, $tr, _, $client)", Max: 1,
 			Why: "tokens go to the client that polls with its own id; confidential clients must have authenticated",
